@@ -378,7 +378,7 @@ def main(chk: C.Check, build: C.Build) -> None:
             for body in itertools.product(al, repeat=n):
                 if not any(o[0] == "L" for o in body):
                     continue
-                if not thorough and n == 2 and r.random() > 0.4:
+                if not thorough and n == 2 and r.random() > 0.2:
                     continue
                 if thorough and n == 3 and kind not in ("dict", "nsdict") and r.random() > 0.08:
                     continue
@@ -456,7 +456,7 @@ def main(chk: C.Check, build: C.Build) -> None:
         "distinct_nontrivial": len(nontrivial),
         "rule": ("histories over {Load(name in a,b; namespace in u,v; globals in none,G1; sync|async), Modify, Delete, FailNext} "
                  f"after a prefix that creates every source: exhaustive up to body length {exhaustive_len} "
-                 "(quick: a seeded 40% of length 2 and only for the dict-backed loaders with capacity 1-2, length 1 elsewhere) for every "
+                 "(quick: a seeded 20% of length 2 and only for the dict-backed loaders with capacity 1-2, length 1 elsewhere) for every "
                  "(loader kind x capacity 1..3 x auto_reload x namespace_key) plus seeded random longer ones; "
                  "non-trivial = some Load found its key already cached and was answered from / revalidated against the cache"),
         "samples": [{"kind": h[0], "capacity": h[1], "auto_reload": h[2], "namespace_key": h[3], "ops": h[4],
